@@ -1,8 +1,8 @@
 package main
 
 import (
-	"encoding/json"
 	"bytes"
+	"encoding/json"
 	"fmt"
 	"go/ast"
 	"go/printer"
@@ -79,10 +79,10 @@ type Loaded struct {
 	Funcs map[*types.Func]*FuncInfo
 	byNm  map[string]*FuncInfo // "src/parser.(*parser).alias" or "src/parser.Parse"
 
-	prog    *ssa.Program
-	ssaPkgs []*ssa.Package
-	cg      *callgraph.Graph
-	cfgs    map[*ast.FuncDecl]*cfg.CFG
+	prog      *ssa.Program
+	ssaPkgs   []*ssa.Package
+	cg        *callgraph.Graph
+	cfgs      map[*ast.FuncDecl]*cfg.CFG
 	cfgBodies map[*ast.BlockStmt]*cfg.CFG
 }
 
